@@ -54,8 +54,8 @@ struct TotalLess {
 enum Comp : unsigned { SORT, PARTITION, COUNT_IF, FIND_IF, ACCUMULATE, MAP_REDUCE, PARTIAL_SUM, DESTROY, NCOMP };
 inline const char* const COMP_NAME[NCOMP] = {"sort",       "partition",  "count_if",    "find_if",
                                              "accumulate", "map_reduce", "partial_sum", "destroy"};
-enum IterKind : unsigned { IT_VECTOR, IT_POINTER, IT_DEQUE, IT_LIST, IT_COUNTING, NITER };
-inline const char* const ITER_NAME[NITER] = {"vector", "pointer", "deque", "list", "counting"};
+enum IterKind : unsigned { IT_VECTOR, IT_POINTER, IT_DEQUE, IT_LIST, IT_COUNTING, IT_CHECKED, NITER };
+inline const char* const ITER_NAME[NITER] = {"vector", "pointer", "deque", "list", "counting", "checked"};
 
 // ------------------------------------------------------------------ case description
 struct DelayCfg {
@@ -63,6 +63,12 @@ struct DelayCfg {
   uint64_t a      = 0;
   unsigned ns     = 0;
   unsigned budget = 0; // max delayed calls per thread
+};
+struct IterDelayCfg { // delay inside operator+ of the user-defined random-access iterator (IT_CHECKED)
+  unsigned ns     = 0; // 0 none, 1 sched_yield, else busy delay
+  unsigned budget = 0; // delayed calls per thread (the first ones: in partition these are the block claims)
+  unsigned who    = 0; // 0 every thread, 1 even tids, 2 odd tids, 3 only tid == a
+  unsigned a      = 0;
 };
 struct PredSpec {
   unsigned kind = 0; // 0 odd key, 1 key >= 2^31, 2 key % 7 < 3
@@ -97,6 +103,7 @@ struct CaseCfg {
   PredSpec pred;
   CmpSpec cmp;
   DelayCfg delay;
+  IterDelayCfg iterDelay;
   uint64_t dataSeed = 1;
   bool thorough     = false;
 };
@@ -118,6 +125,8 @@ struct alignas(128) ThreadMon {
   uint64_t serialCalls = 0; // ... of those, outside any parallel region (the caller's serial clean-up)
   uint64_t delays      = 0;
   int64_t budget       = 0;
+  int64_t iterBudget   = 0;
+  uint64_t iterDelays  = 0;
 };
 struct AddrRun {
   const char* lo;
@@ -136,6 +145,7 @@ struct Monitor {
   bool haveMap  = false;
   std::vector<uint8_t> seen; // position examined during the parallel phase (only when haveMap)
   DelayCfg delay;
+  IterDelayCfg iterDelay;
   const char* comp = "";
   uint64_t oobSerial = 0;
   long oobIndex      = 0;
@@ -144,7 +154,9 @@ struct Monitor {
     for (unsigned i = 0; i < verif::MAXT; ++i) {
       t[i]        = ThreadMon();
       t[i].budget = c.delay.budget;
+      t[i].iterBudget = c.iterDelay.budget;
     }
+    iterDelay = c.iterDelay;
     runs.clear();
     haveMap   = false;
     n         = c.n;
@@ -206,7 +218,7 @@ struct Monitor {
   uint64_t totalDelays() const {
     uint64_t s = 0;
     for (auto& x : t)
-      s += x.delays;
+      s += x.delays + x.iterDelays;
     return s;
   }
   unsigned threadsUsed() const { // pool threads that executed a function object inside a parallel region
@@ -330,6 +342,86 @@ struct Cmp {
   }
 };
 
+// ------------------------------------------------------------------ user-defined random-access iterator
+// A bounds-checked pointer wrapper, the kind of iterator a careful user passes. Dereferencing it outside the
+// input is reported like a predicate applied outside the input. Its operator+ can be slow for chosen threads
+// (IterDelayCfg): ParallelSTL::partition evaluates `rv + BS` between releasing the block lock in takeLow and
+// taking it again in takeHigh, so this steers which thread claims which block.
+inline void iter_plus_delay() {
+  Monitor& m = g_mon;
+  if (!m.iterDelay.ns || !in_parallel_region())
+    return;
+  unsigned tid  = galois::substrate::ThreadPool::getTID();
+  ThreadMon& tm = m.t[tid < verif::MAXT ? tid : 0];
+  if (tm.iterBudget <= 0)
+    return;
+  switch (m.iterDelay.who) {
+  case 1: if (tid & 1) return; break;
+  case 2: if (!(tid & 1)) return; break;
+  case 3: if (tid != m.iterDelay.a) return; break;
+  default: break;
+  }
+  --tm.iterBudget;
+  ++tm.iterDelays;
+  if (m.iterDelay.ns == 1)
+    sched_yield();
+  else
+    verif::busy_delay_ns(m.iterDelay.ns);
+}
+inline void iter_check(const void* p) {
+  Monitor& m = g_mon;
+  if (!m.haveMap)
+    return;
+  long nearest = 0;
+  if (m.locate((const char*)p, &nearest) == LONG_MIN)
+    on_oob(nearest);
+}
+template <class T>
+class ChkIt {
+  T* p;
+
+public:
+  using iterator_category = std::random_access_iterator_tag;
+  using value_type        = T;
+  using difference_type   = std::ptrdiff_t;
+  using pointer           = T*;
+  using reference         = T&;
+  ChkIt() : p(nullptr) {}
+  explicit ChkIt(T* q) : p(q) {}
+  reference operator*() const {
+    iter_check(p);
+    return *p;
+  }
+  pointer operator->() const {
+    iter_check(p);
+    return p;
+  }
+  reference operator[](difference_type n) const {
+    iter_check(p + n);
+    return p[n];
+  }
+  ChkIt& operator++() { ++p; return *this; }
+  ChkIt operator++(int) { ChkIt t(*this); ++p; return t; }
+  ChkIt& operator--() { --p; return *this; }
+  ChkIt operator--(int) { ChkIt t(*this); --p; return t; }
+  ChkIt& operator+=(difference_type n) { p += n; return *this; }
+  ChkIt& operator-=(difference_type n) { p -= n; return *this; }
+  friend ChkIt operator+(const ChkIt& a, difference_type n) {
+    iter_plus_delay();
+    return ChkIt(a.p + n);
+  }
+  friend ChkIt operator+(difference_type n, const ChkIt& a) { return ChkIt(a.p + n); }
+  friend ChkIt operator-(const ChkIt& a, difference_type n) { return ChkIt(a.p - n); }
+  friend difference_type operator-(const ChkIt& a, const ChkIt& b) { return a.p - b.p; }
+  friend bool operator==(const ChkIt& a, const ChkIt& b) { return a.p == b.p; }
+  friend bool operator!=(const ChkIt& a, const ChkIt& b) { return a.p != b.p; }
+  friend bool operator<(const ChkIt& a, const ChkIt& b) { return a.p < b.p; }
+  friend bool operator>(const ChkIt& a, const ChkIt& b) { return a.p > b.p; }
+  friend bool operator<=(const ChkIt& a, const ChkIt& b) { return a.p <= b.p; }
+  friend bool operator>=(const ChkIt& a, const ChkIt& b) { return a.p >= b.p; }
+  T* raw() const { return p; }
+};
+
 // ------------------------------------------------------------------ containers
 // raw-pointer ranges live between two inaccessible pages (one side flush with the array), so an
 // out-of-range access by the library traps deterministically in every build config
@@ -381,6 +473,13 @@ void with_ra_range(const CaseCfg& c, const std::vector<T>& input, std::vector<T>
   case IT_DEQUE: {
     std::deque<T> d(input.begin(), input.end());
     body(d.begin(), d.end());
+    break;
+  }
+  case IT_CHECKED: {
+    GuardedBuf b(input.size() * sizeof(T), c.variant & 1);
+    T* p = reinterpret_cast<T*>(b.data);
+    std::copy(input.begin(), input.end(), p);
+    body(ChkIt<T>(p), ChkIt<T>(p + input.size()));
     break;
   }
   default: {
